@@ -800,6 +800,10 @@ def tree_name_to_values(inference_state, context, tree_name):
         types = NO_VALUES
     elif typ == 'namedexpr_test':
         types = infer_node(context, node)
+    elif typ == 'error_node':
+        # The definition is part of broken code, e.g. `except E as e` of a try
+        # statement that could not be parsed.
+        types = NO_VALUES
     else:
         raise ValueError("Should not happen. type: %s" % typ)
     return types
